@@ -51,13 +51,13 @@ def main():
         m = re.search(r"cp\s+\S*demo_test\.go\s+(\S+)", md)
         dest = m.group(1) if m else None
         if dest:
-            dest = re.sub(r"^/tmp/mut-C\d+/", "", dest)
+            dest = re.sub(r"^/tmp/mut2?-C\d+/", "", dest)
             dest = re.sub(r"^<worktree>/|^\$WT/|^\$W/|^\./", "", dest)
             if dest.endswith("/"): dest += "zz_seeded_demo_test.go"
         m = re.search(r"(go test [^\n]*-run[^\n]*)", md) or re.search(r"(go test [^\n]*\./test/\S+)", md)
         cmd = m.group(1).strip() if m else None
         if cmd:
-            cmd = re.sub(r"/tmp/mut-C\d+", WT, cmd).split("|")[0].split("#")[0].strip()
+            cmd = re.sub(r"/tmp/mut2?-C\d+", WT, cmd).split("|")[0].split("#")[0].strip()
         res = {"dir": d}
         if not dest or not cmd:
             print(f"{d}: CANNOT PARSE demo.md (dest={dest} cmd={cmd})"); continue
